@@ -204,28 +204,31 @@ def check(case):
                         if pv < 1e-9:
                             msgs.append(f"{tag}: period {t}->{t + 1}: next labels of {s1} and {s2} are not independent (chi2={stat:.1f}, p={pv:.2e}, n={n}): observed {obs.astype(int).tolist()}, expected {np.round(exp, 1).tolist()}")
                             return
-        # (4) independence across periods
-        for s in stoch:
-            for t in range(T - 2):
-                strat = cell_ids[(s, t)].astype(np.int64) * 100_003 + cell_ids[(s, t + 1)]
-                for sc in np.unique(strat):
-                    m = strat == sc
-                    if int(m.sum()) < 400:
-                        continue
-                    a_, b_ = cols[s][t + 1][m], cols[s][t + 2][m]
-                    tab = np.zeros((spec.size(s), spec.size(s)))
-                    np.add.at(tab, (a_, b_), 1)
-                    tab = tab[tab.sum(axis=1) > 0][:, tab.sum(axis=0) > 0]
-                    if tab.shape[0] < 2 or tab.shape[1] < 2:
-                        continue
-                    exp = np.outer(tab.sum(axis=1), tab.sum(axis=0)) / tab.sum()
-                    if (exp < 5).any():
-                        continue
-                    stat, pv, _, _ = chi2_contingency(tab, correction=False)
-                    cnt["period_tests"] += 1
-                    if pv < 1e-9:
-                        msgs.append(f"{tag}: state {s}: label drawn in period {t} and label drawn in period {t + 1} are not independent within a stratum (chi2={stat:.1f}, p={pv:.2e}): {tab.astype(int).tolist()}")
-                        return
+        # (4) independence across periods, for every ordered pair of stochastic states (s2 drawn
+        # at t, s1 drawn at t+1; includes s1 == s2): given the conditioning cell of s1 at t+1, the
+        # label of s1 drawn at t+1 is independent of everything drawn before
+        for s1 in stoch:
+            for s2 in stoch:
+                for t in range(T - 2):
+                    strat = cell_ids[(s1, t + 1)]
+                    for sc in np.unique(strat):
+                        m = strat == sc
+                        if int(m.sum()) < 400:
+                            continue
+                        a_, b_ = cols[s2][t + 1][m], cols[s1][t + 2][m]
+                        tab = np.zeros((spec.size(s2), spec.size(s1)))
+                        np.add.at(tab, (a_, b_), 1)
+                        tab = tab[tab.sum(axis=1) > 0][:, tab.sum(axis=0) > 0]
+                        if tab.shape[0] < 2 or tab.shape[1] < 2:
+                            continue
+                        exp = np.outer(tab.sum(axis=1), tab.sum(axis=0)) / tab.sum()
+                        if (exp < 5).any():
+                            continue
+                        stat, pv, _, _ = chi2_contingency(tab, correction=False)
+                        cnt["period_tests"] += 1
+                        if pv < 1e-9:
+                            msgs.append(f"{tag}: label of {s2} drawn in period {t} and label of {s1} drawn in period {t + 1} are not independent within a conditioning cell of {s1} (chi2={stat:.1f}, p={pv:.2e}): {tab.astype(int).tolist()}")
+                            return
 
     if not msgs:
         test_frame(dfa, f"seed {case['seed_a']}")
@@ -237,7 +240,7 @@ def check(case):
     if msgs:
         out.status, out.reason = "violation", msgs[0]
         out.bucket = "draws:" + ("seed" if "seed" in msgs[0] and ("same seed" in msgs[0] or "changing the seed" in msgs[0]) else
-                                 "zero_probability" if "probability 0" in msgs[0] else
+                                 "zero_probability" if "which has probability 0" in msgs[0] else
                                  "frequency" if "binomial" in msgs[0] else "independence")
         return out
     out.sample = {"n_periods": T, "states": {k: list(v) for k, v in spec.states.items()}, "choices": {k: list(v) for k, v in spec.choices.items()},
